@@ -178,6 +178,12 @@ def oracle_c15_life(cid, impl, m):
         ok |= {"unknown/ctx", "notMember/ctx"}
     if kind in ("fault", "corpus"):
         ok |= {m.get("res"), "unknown/storage", "notMember/storage"}
+    if m.get("lim0") not in (None, "0"):
+        # the depth or width limit binds in the undisturbed run: with the real concurrent checkgroup the answer then
+        # depends on which sibling expansion marks a shared subject set visited first (DESIGN 9.7) - the
+        # "fault-free answer" is not one value; what is judged is that the check returns, without leaking,
+        # and never allowed together with an error
+        ok |= {"isMember/none", "notMember/none", "unknown/none"}
     if kind == "batchfault":
         # the k-th storage call of the WHOLE batch fails: an entry answers what its own check answers, or
         # carries the storage error
